@@ -762,3 +762,13 @@ Module Examples.
                            default_variator [KBinary; KInteger] = Some Op_HUX_BitFlip.
   Proof. repeat split. Qed.
 End Examples.
+
+(* ---- Real.rand on very wide bounds: the interpolation stays inside [min, max] for r in [0, 1] ---- *)
+From Coq Require Import QArith Lqa.
+Lemma rand_real_wide_in_domain (lb ub r : Q) :
+  (lb <= ub)%Q -> (0 <= r)%Q -> (r <= 1)%Q ->
+  (lb <= rand_real_interp lb ub r)%Q /\ (rand_real_interp lb ub r <= ub)%Q.
+Proof. unfold rand_real_interp. intros H0 H1 H2. split; nra. Qed.
+
+Example rand_real_wide_ex : rand_real_interp (-3) 5 (1 # 4) == -1 # 1.
+Proof. reflexivity. Qed.
